@@ -27,7 +27,8 @@ type c18Edit struct {
 	// add | remove | enable | disable | rewrite | dup (list an address once more) | shuffle | backup | rollback |
 	// omit-list (the file keeps only its enable line: no address is listed) | omit-enable (only the list: the
 	// switch is at its default, off) | empty (an empty file) | edit-and-rollback (copy aside, toggle one address,
-	// move the copy back)
+	// move the copy back) | broken-then-fixed (the file is saved with a syntax error, then corrected, with one
+	// address toggled) | moved-aside-then-new (the file is renamed away, then a new one is moved into place)
 	Kind   string `json:"kind"`
 	IP     int    `json:"ip"`   // 1..8 -> 127.0.0.<ip>
 	Rename bool   `json:"rename"`
@@ -51,7 +52,7 @@ func c18Gen(t *rapid.T) c18Case {
 	n := rapid.IntRange(1, 6).Draw(t, "nedits")
 	for i := 0; i < n; i++ {
 		c.Edits = append(c.Edits, c18Edit{
-			Kind:   rapid.SampledFrom([]string{"add", "add", "remove", "remove", "remove", "enable", "disable", "rewrite", "dup", "dup", "shuffle", "backup", "rollback", "rollback", "omit-list", "omit-enable", "empty", "edit-and-rollback"}).Draw(t, "kind"),
+			Kind:   rapid.SampledFrom([]string{"add", "add", "remove", "remove", "remove", "enable", "disable", "rewrite", "dup", "dup", "shuffle", "backup", "rollback", "rollback", "omit-list", "omit-enable", "empty", "edit-and-rollback", "broken-then-fixed", "moved-aside-then-new"}).Draw(t, "kind"),
 			IP:     rapid.IntRange(1, 8).Draw(t, "ip"),
 			Rename: rapid.IntRange(0, 2).Draw(t, "rename") == 0,
 		})
@@ -340,6 +341,32 @@ func c18Exec(c *c18Case) ([]Discrepancy, []string) {
 			layout = e.Kind
 			enable = false
 			set, dups = map[int]bool{}, map[int]int{}
+		case "broken-then-fixed", "moved-aside-then-new":
+			// for a moment there is no loadable whitelist file (nothing is demanded of the proxy then); the edit that
+			// follows is an ordinary valid one and has to come into force like any other
+			if e.Kind == "broken-then-fixed" {
+				if err := os.WriteFile(file, []byte("enable: [true\nip_white_list:\n  - 127.0.0.1\n   - bad indent: {\n"), 0o644); err != nil {
+					harnessProblem("cannot write the whitelist file: %v", err)
+				}
+			} else if err := os.Rename(file, file+".aside"); err != nil {
+				harnessProblem("cannot move the whitelist file aside: %v", err)
+			}
+			time.Sleep(time.Duration(20+e.IP*40) * time.Millisecond)
+			if set[e.IP] {
+				delete(set, e.IP)
+				delete(dups, e.IP)
+			} else {
+				set[e.IP] = true
+			}
+			if err := write(e.Kind == "moved-aside-then-new" || e.Rename); err != nil {
+				harnessProblem("cannot write the whitelist file: %v", err)
+			}
+			what := fmt.Sprintf("edit %d (%s: afterwards a valid file with 127.0.0.%d toggled)", i+1, e.Kind, e.IP)
+			trace = append(trace, what)
+			if ds := converge(what); ds != nil {
+				return ds, trace
+			}
+			continue
 		case "edit-and-rollback":
 			// copy aside, change the live file, wait until the change is in force, move the copy back
 			b, err := os.ReadFile(file)
@@ -398,7 +425,7 @@ func c18Classify(c *c18Case) (bool, []string) {
 	var cls []string
 	for _, e := range c.Edits {
 		cls = append(cls, "edit-"+e.Kind)
-		if e.Kind == "remove" || e.Rename || e.Kind == "rollback" || e.Kind == "omit-list" || e.Kind == "omit-enable" || e.Kind == "empty" || e.Kind == "edit-and-rollback" {
+		if e.Kind == "remove" || e.Rename || e.Kind == "rollback" || e.Kind == "omit-list" || e.Kind == "omit-enable" || e.Kind == "empty" || e.Kind == "edit-and-rollback" || e.Kind == "broken-then-fixed" || e.Kind == "moved-aside-then-new" {
 			nt = true
 		}
 		if e.Rename {
